@@ -8,6 +8,7 @@ import Helm.Model.Ledger
 import Helm.Lemmas.Ledger
 import Helm.Lemmas.LedgerSuccess
 import Helm.Lemmas.RollbackSuccess
+import Helm.Lemmas.UninstallSuccess
 import Helm.Gen.Tables
 import Helm.Spec.Skeletons
 
@@ -175,6 +176,15 @@ theorem rollback_success_spec (fl : RollbackFlags) (l : Ledger) (cur prevRec : R
     (rollback fl {} l).2 = .success ∧
     (rollback fl {} l).1.ledger = supersedeDeployed l ++ [⟨cur.rev + 1, .deployed, prevRec.payload⟩] :=
   rollback_success fl l cur prevRec hdry hmax hnd hlast hprev
+
+/-- A fault-free uninstall without keep-history of a release whose last revision is not already
+uninstalled, on ANY history with unique revisions and with any number of hooks: success, and no
+revision remains. -/
+theorem uninstall_success_spec (fl : UninstallFlags) (l : Ledger) (rel : Rec)
+    (hdry : fl.dryRun = false) (hkeep : fl.keepHistory = false) (hnd : (revs l).Nodup)
+    (hlast : last? l = some rel) (hnu : rel.status ≠ .uninstalled) :
+    (uninstall fl {} l).2 = .success ∧ (uninstall fl {} l).1.ledger = [] :=
+  uninstall_success_purges fl l rel hdry hkeep hnd hlast hnu
 
 /-- premises satisfiable: a history with a failed revision on top of the deployed one -/
 example : (upgrade {} {} {} 9 [⟨1, .superseded, 1⟩, ⟨2, .deployed, 2⟩, ⟨3, .failed, 3⟩]).1.ledger =
